@@ -47,6 +47,7 @@ type nodeCase struct {
 	initLogLen    int
 	dumpAfterInit string
 	blockTxs      map[string][]*txInfo // block name -> its transactions (coinbase first)
+	lastStored    int                  // number of stored blocks after the previous event
 	delivered     map[string]bool
 	rejected      map[string]bool // delivered only in a deliberately corrupted variant
 	mode          string
@@ -417,6 +418,14 @@ func (nc *nodeCase) oracleAfterEvent(op string, r procResult) {
 			if answered && okAnswer && nc.synced && !isBest && nc.mode != "rules" {
 				nc.c.Fail(sig("C11", "best-not-fork-choice"), fmt.Sprintf("after %s: best block %s is not the fork-choice winner %s", op, bestName, nc.nm.name(want)))
 			}
+			// C12 "connected as if the blocks had arrived in order": a delivery that connected
+			// waiting orphans (more than one block became stored) must leave the chain where an
+			// in-order delivery leaves it, i.e. at the fork-choice winner over what is stored now
+			nStored := strings.Count(n.dumpStored(nc.nm), ",") + 1
+			if strings.HasPrefix(op, "deliver") && okAnswer && nc.synced && !isBest && nc.mode != "rules" && nStored > nc.lastStored+1 {
+				nc.c.Fail(sig("C12", "orphans-connected-but-not-followed"), fmt.Sprintf("after %s: %d blocks became stored (waiting orphans were connected) but the best block is %s, in-order delivery ends at %s", op, nStored-nc.lastStored, bestName, nc.nm.name(want)))
+			}
+			nc.lastStored = nStored
 			if !(answered && okAnswer && nc.synced) {
 				nc.synced = isBest
 			}
